@@ -450,6 +450,8 @@ def run(tier: str, budget: Budget, rnd, repo_mod) -> StreamResult:
                 if len(res.disagreements) > 5:
                     break
     nonfinite_cases(res, rnd, tier)
+    from common import optimized_probe
+    optimized_probe(res, "game", rnd.randrange(10 ** 6), "table:interpreter-flag")
     return res
 
 
